@@ -1263,6 +1263,15 @@ class Interp:
             g[name] = self.materialise_global(name, n)
         return VarPlace(g, name)
 
+    def read_global(self, name):
+        g = self.ctx.globals
+        if name not in g:
+            if name not in self.global_init:
+                raise AnalysisBroken('read_global(%s): no initial value configured' % name)
+            v = self.global_init[name]
+            g[name] = v(self.ctx) if callable(v) else v
+        return g[name]
+
     def materialise_global(self, name, n):
         if name in self.global_init:
             v = self.global_init[name]
@@ -1304,7 +1313,8 @@ class Interp:
             if isinstance(p, _ObjSelfPlace):
                 return p.obj
             v = None
-            if isinstance(p, (VarPlace, FieldPlace, ElemPlace)):
+            st = (sub.dtype or sub.type or '').strip()
+            if isinstance(p, (VarPlace, FieldPlace, ElemPlace)) and not st.endswith('*'):
                 try:
                     v = p.get(self)
                 except Infeasible:
